@@ -26,7 +26,6 @@ among the completions, with lazy / polling / blocked-thread consumers, and
 seeded random orders (several jobs in flight at once) beyond 6 parts."""
 import itertools
 import math
-import os
 import pickle
 import queue
 import threading
@@ -50,25 +49,29 @@ RULE = ('REAL: one case = one pool call (api, input length, chunk size, iterable
 ASSUMPTIONS = [
     'values are compared in a canonical form that distinguishes NaN/-0.0, str/bytes, list/tuple and dict order but not object sharing',
     'chunked imap/imap_unordered with a raising function is judged at chunk granularity (everything before the failing chunk in order, error record of an input of that chunk, then the generator ends) - stdlib-inherited behaviour, DESIGN note N',
-    'PERM lane: the worker is scripted (runs the task tuple the parent sent, wraps failures in the real ExceptionInfo, pickles the result); pipes are replaced by a pickle round trip; the parent-side code is real',
+    'PERM lane: the worker is scripted (runs the task tuple the parent sent, wraps failures in the real ExceptionInfo, pickles the result with billiard\'s pickler); pipes are replaced by a pickle round trip; the parent-side code is real',
     'chunk sizes <= 0 and input iterables that raise are outside the quantifier and are not generated',
-    'hang verdicts (a call or iterator that never delivers) rest on a 60 s bound for work of < 2 s and are re-run alone before being reported',
+    'REAL lane hang verdict: the call has not returned and no worker logged anything for 15 s (items take <= 40 ms); it is first replayed in process with the observed completion order (a logical witness needs no clock), otherwise re-run alone before being reported',
+    'PERM lane verdicts are logical (every part delivered and announced, non-blocking probe) except for consumers blocked in a thread (15 s bound, reported only if the non-blocking twin of the case is clean, re-run alone)',
+    'lost workers, time limits and recycling are other properties: none is injected here',
 ]
 JOBS = 14
 SPEC_TIMEOUT = 700
 CONFIRM_ALONE = ('call_never_returned', 'call_never_resolved', 'iterator_stuck')
 FLOORS = {
-    'quick': {'real:calls': 120, 'real:scenarios': 8, 'real:calls_out_of_order': 12, 'real:multiworker_calls': 40,
-              'real:raising_calls': 20, 'real:partial_last_chunk': 15, 'real:empty_input': 4, 'real:nolen_iterable': 10,
-              'real:api:map': 10, 'real:api:starmap': 10, 'real:api:imap': 10, 'real:api:imap_unordered': 10,
-              'real:api:apply': 8, 'real:concurrent_calls': 20, 'real:items_checked': 1500,
-              'perm:cases': 12000, 'perm:exhaustive_orders_m6': 3000, 'perm:len_before_all_results': 800,
-              'perm:len_after_all_results': 800, 'perm:len_in_between': 3000, 'perm:item_buffered': 2000,
-              'perm:burst_release': 800, 'perm:failing_part_cases': 1500, 'perm:random_cases': 150,
-              'perm:thread_consumer_cases': 100, 'perm:multi_job_cases': 40},
-    'thorough': {'real:calls': 900, 'real:scenarios': 50, 'real:calls_out_of_order': 80, 'real:raising_calls': 120,
-                 'real:items_checked': 20000, 'perm:cases': 30000, 'perm:exhaustive_orders_m6': 3000,
-                 'perm:random_cases': 1500, 'perm:multi_job_cases': 300},
+    'quick': {'real:calls': 120, 'real:scenarios': 10, 'real:calls_out_of_order': 25, 'real:multiworker_calls': 35,
+              'real:raising_calls': 30, 'real:stopiteration_calls': 5, 'real:partial_last_chunk': 25, 'real:empty_input': 4,
+              'real:nolen_iterable': 40, 'real:api:map': 30, 'real:api:starmap': 30, 'real:api:imap': 15,
+              'real:api:imap_unordered': 15, 'real:api:apply': 8, 'real:concurrent_calls': 70, 'real:items_checked': 1700,
+              'real:sigstops_sent': 200,
+              'perm:cases': 15000, 'perm:exhaustive_orders_m6': 4320, 'perm:len_before_all_results': 2000,
+              'perm:len_after_all_results': 2000, 'perm:len_in_between': 9000, 'perm:item_buffered': 7000,
+              'perm:burst_release': 3000, 'perm:failing_part_cases': 1800, 'perm:random_cases': 400,
+              'perm:random_orders_beyond_6': 80, 'perm:thread_consumer_cases': 350, 'perm:multi_job_cases': 100},
+    'thorough': {'real:calls': 560, 'real:scenarios': 60, 'real:calls_out_of_order': 200, 'real:multiworker_calls': 250,
+                 'real:raising_calls': 170, 'real:stopiteration_calls': 30, 'real:items_checked': 12000,
+                 'perm:cases': 21000, 'perm:exhaustive_orders_m6': 4320, 'perm:random_cases': 6000,
+                 'perm:random_orders_beyond_6': 2000, 'perm:multi_job_cases': 1800, 'perm:thread_consumer_cases': 1500},
 }
 
 APIS = ['map', 'map_async', 'starmap', 'starmap_async', 'imap', 'imap_unordered', 'apply', 'apply_async']
@@ -656,6 +659,7 @@ class Bench:
         self.sent = []
         self.limit = 10 ** 9
         self.overrun = False
+        self.confused = None
         self.on_put = None
         self.outq = queue.Queue()
         self.th = bp.TaskHandler(pool._taskqueue, self._put, self.outq, [], pool._cache)
@@ -882,7 +886,8 @@ def run_perm_case(bench, rec, c, order, L, consumer, ack_early=False, tag=''):
         if pj.job is None:
             pj.job = job
         elif job != pj.job:
-            raise RuntimeError('task of another job %r streamed (expected %r)' % (job, pj.job))
+            bench.confused = 'task of another job %r streamed (expected %r)' % (job, pj.job)
+            return
         pj.tasks[i] = task
         if ack_early:
             bench.ack(job, i, 7000 + i % bench.nproc)
@@ -914,6 +919,8 @@ def run_perm_case(bench, rec, c, order, L, consumer, ack_early=False, tag=''):
         return
     finally:
         bench.on_put = None
+    if bench.confused:
+        raise RuntimeError('harness: ' + bench.confused)
     if consumer == 'thread' and out[0] == 'items' and out[2] == 'stuck':
         # a blocked consumer that never came back is a clock-based verdict.  If the same case with a
         # consumer that never blocks is refuted logically, report that instead (no clock, no re-run)
@@ -1138,7 +1145,8 @@ def run_multi_case(bench, rec, rng, nproc, maxn):
         _t, (job, i, _f, _a, _k) = task
         pj = byjob.get(job)
         if pj is None:
-            raise RuntimeError('task of an unknown job %r streamed' % (job,))
+            bench.confused = 'task of an unknown job %r streamed' % (job,)
+            return
         pj.tasks[i] = task
         pend.append((pj, i))
         while pend and rng.random() < eagerness:
@@ -1157,14 +1165,14 @@ def run_multi_case(bench, rec, rng, nproc, maxn):
         while pend:
             complete(*pend.pop(rng.randrange(len(pend))))
         outs = [pj.finish(rec) for pj in pjs]
-    except RuntimeError:
-        raise
     except Exception:                            # noqa
         rec.violation('parent_side_code_raised', attrs, calls=calls, completions=order_log[-40:],
                       tb=traceback.format_exc()[-2500:])
         return
     finally:
         bench.on_put = None
+    if bench.confused:
+        raise RuntimeError('harness: ' + bench.confused)
     for pj, out in zip(pjs, outs):
         judge(rec, pj.c, out, 'perm', extra={'multi_job': True, 'jobs': [c['api'] for c in calls],
                                              'completions': order_log[:80]})
